@@ -20,6 +20,7 @@ Definition hclo_ok (a : Z) (tn : ident) (cls : list clause) (cenv : ctx) : Prop 
   forall k c, nth_error cls k = Some c ->
     exists i pcc lcl cl lcb cb lcb',
       PM.find (key (a + (if Nat.leb (List.length cls) 1 then 0 else jump_length (N.of_nat k)))) (index_at im) = Some i /\
+      a + (if Nat.leb (List.length cls) 1 then 0 else jump_length (N.of_nat k)) < 4611686018427387904 - 32 /\
       (forall s o, rfin im stop pcc s o -> rfin im stop i s o) /\
       r_load cenv (cl_ctx c) lcl = Ok (cl, lcb) /\ rcs (ptypes p) (cl_body c) (cl_ctx c ++ cenv) lcb = Ok (cb, lcb') /\
       placed im pcc (cl ++ cb) /\
